@@ -329,10 +329,22 @@ def in_ranges(x, rs):
     return z3.simplify(map_leaves(x, lambda l: leaf_in_ranges(l, rs)))
 
 
+def _is_guard(c):
+    """condition built from Boolean constants only (partition guards), no arithmetic atoms"""
+    if z3.is_const(c) and z3.is_bool(c):
+        return True
+    if z3.is_app(c) and c.decl().kind() in (z3.Z3_OP_NOT, z3.Z3_OP_AND, z3.Z3_OP_OR):
+        return all(_is_guard(x) for x in c.children())
+    return False
+
+
 def prune_ite(e):
-    """drop If branches whose guard is decided by the light path condition, and NOTFOUND leaves"""
+    """drop If branches whose *guard* (Boolean partition constants) is decided by the light path condition, and
+    NOTFOUND leaves next to them; arithmetic conditions inside a class (segment chains) are left to the solver"""
     if z3.is_app(e) and e.decl().kind() == z3.Z3_OP_ITE:
         c, a, b = e.children()
+        if not _is_guard(c):
+            return e
         if not ctx.light_feasible(c):
             return prune_ite(b)
         if not ctx.light_feasible(z3.Not(c)):
